@@ -61,6 +61,7 @@ def snapshot(impl):
         'ev_suspend': bool(ev.suspend_all),
         'files': sorted(impl.files.files.keys()), 'stick': bool(impl.stick.is_on),
         'def_seg': impl.all_memory.segment,
+        'math_raise': bool(impl.values.error_handler._do_raise),
     }
     # what view() gives for the pointers below var_start (program code, FIELD buffers)
     foreign = {}
@@ -115,7 +116,7 @@ def coq_state(d):
         zlit(d['err_num']), zlit(d['err_pos']), coq_opt(d['stop_pos']), zlit(d['data_pos']),
         coq_bool(d['run_mode']), coq_bool(d['tron']), zlit(d['seed']),
         core.zl(d['ev_enabled']), core.zl(d['ev_gosub']), core.zl(d['ev_stopped']), coq_bool(d['ev_suspend']),
-        core.zl(d['files']), coq_bool(d['stick']), zlit(d['def_seg']),
+        core.zl(d['files']), coq_bool(d['stick']), zlit(d['def_seg']), coq_bool(d['math_raise']),
     ]
     return '(mkState %s)' % ' '.join(f)
 
@@ -150,7 +151,7 @@ def enc_state(names, d, foreign):
     out += [len(d['functions']), d['gosub'], d['for'], d['while'], opt(d['on_error']), int(d['err_handle']),
             int(d['err_resume']), d['err_num'], d['err_pos'], opt(d['stop_pos']), d['data_pos'],
             int(d['run_mode']), int(d['tron']), d['seed'], len(d['ev_enabled']), len(d['ev_gosub']),
-            len(d['ev_stopped']), int(d['ev_suspend']), int(d['stick']), d['def_seg']]
+            len(d['ev_stopped']), int(d['ev_suspend']), int(d['stick']), d['def_seg'], int(d['math_raise'])]
     out += [len(d['files'])] + d['files']
     sv = {bytes(n): v for n, v in d['sc_vars']}
     for n in names:
@@ -536,6 +537,8 @@ def gen_case(rng, kind=None, opts=None):
         'deftype': b.deftype, 'base': b.base, 'fns': b.fns, 'trap': b.trap, 'pad': opts.get('pad', 0),
         'file2': b.file2,
     }
+    if cmd != 'CHAIN' and b.base != 1 and rng.random() < 0.4:
+        case['base_first'] = True
     assert case['p1'], (lines, b.lines)
     return case
 
@@ -735,11 +738,18 @@ class C23(core.Check):
         """[(key, direct statement)]; LOCATE keeps the cursor off the bottom line (scrolling is slow)"""
         p = []
         p.append(('errerl', 'LOCATE 1,1:PRINT "<E>";ERR;ERL;"|":PRINT "<F>";FRE(0);"|":PRINT "<R>";RND;"|"'))
-        for n, dims in case['arrays']:
+        arrays = case['arrays']
+        if case.get('base_first'):
+            # OPTION BASE first, before any array is touched by a probe (the probes dimension and erase arrays,
+            # which rewrites the "set by DIM" mark); the array probes are then left out
+            p.append(('base', 'LOCATE 1,1:OPTION BASE 1:PRINT "<B>ok|"'))
+            p.append(('base2', 'LOCATE 1,1:DIM QR%(1):ERASE QR%:OPTION BASE 0:PRINT "<C>unset|"'))
+            arrays = []
+        for n, dims in arrays:
             if max(dims) < 10:      # a missing array is dimensioned to 10 by the probe itself
                 p.append(('shape:' + n, 'LOCATE 1,1:PRINT "<S>";%s(%s);"|"' % (n, ','.join(str(x + 1) for x in dims))))
         refs = []
-        for n, dims in case['arrays']:
+        for n, dims in arrays:
             lo = case['base'] or 0
             idx = [[]]
             for x in dims:
@@ -760,10 +770,16 @@ class C23(core.Check):
         p.append(('deftype', 'LOCATE 1,1:ZZ=1.5:PRINT "<T>";ZZ;"|"'))
         p.append(('fn', 'LOCATE 1,1:PRINT "<N>";FNA!(1);"|"'))
         # OPTION BASE: remove every array first (probing a missing array dimensions it and sets the base)
-        for n, dims in case['arrays']:
+        for n, dims in arrays:
             p.append(('erase', 'ERASE %s' % n))
-        p.append(('base', 'LOCATE 1,1:DIM QQ%(0):ERASE QQ%:OPTION BASE 1:PRINT "<B>ok|"'))
+        if not case.get('base_first'):
+            p.append(('base', 'LOCATE 1,1:DIM QQ%(0):ERASE QQ%:OPTION BASE 1:PRINT "<B>ok|"'))
+            # ... and the "set by DIM" mark: the base is explicit now, erasing the last array must not unset it
+            p.append(('base2', 'LOCATE 1,1:DIM QR%(1):ERASE QR%:OPTION BASE 0:PRINT "<C>unset|"'))
+        # math errors are soft again: message, machine infinity, execution continues (D23e)
+        p.append(('math', 'LOCATE 1,1:PRINT 1/0:PRINT "<M>after|"'))
         p.append(('trap', 'LOCATE 1,1:ERROR 200'))
+        p.append(('resume', 'LOCATE 1,1:RESUME'))
         p.append(('return', 'LOCATE 1,1:RETURN'))
         p.append(('next', 'LOCATE 1,1:NEXT'))
         p.append(('wend', 'LOCATE 1,1:WEND'))
@@ -790,8 +806,9 @@ class C23(core.Check):
     # ---- the framework interface
     def corpus(self):
         def prog(lines, direct, op, scalars=(), arrays=(), **kw):
-            c = {'k': 'op', 'p1': sorted(lines + [[8000, 'STOP'], [8500, 'DATA 11,22,33'], [9000, 'PRINT "TRAP";ERR:STOP'],
-                                               [9500, 'RETURN']]),
+            fixed = [[8000, 'STOP'], [8500, 'DATA 11,22,33'], [9000, 'PRINT "TRAP";ERR:STOP'], [9500, 'RETURN']]
+            have = set(n for n, _ in lines)
+            c = {'k': 'op', 'p1': sorted(lines + [x for x in fixed if x[0] not in have]),
                  'direct': direct, 'op': op, 'where': 'direct' if direct else 'prog',
                  'scalars': sorted(scalars), 'arrays': sorted(arrays), 'deftype': {}, 'base': None, 'fns': [],
                  'trap': False, 'pad': 0}
@@ -807,6 +824,21 @@ class C23(core.Check):
                   [100, 'ON ERROR GOTO 9000:DEF FNA!(X!)=X!:Z1!=RND:READ Q1%:DEFINT A-C'],
                   [110, 'CLEAR'], [120, 'STOP']], [], clear, scalars=['A%', 'S$', 'I8%', 'Z1!', 'Q1%'],
                  arrays=[['N%', [3]]], fns=['FNA!'], trap=True),
+            # D23e: ON ERROR GOTO switches math errors to "raise"; NEW / CLEAR / RUN must switch them back
+            prog([[10, 'ON ERROR GOTO 9000:X!=1'], [20, 'STOP']], ['NEW'], {'cmd': 'NEW', 'text': 'NEW'},
+                 scalars=['X!'], trap=True),
+            prog([[10, 'ON ERROR GOTO 9000:X!=1'], [20, 'CLEAR'], [30, 'STOP']], [], clear, scalars=['X!'], trap=True),
+            prog([[10, 'ON ERROR GOTO 9000:X!=1'], [20, 'STOP']], ['RUN 8000'],
+                 {'cmd': 'RUN', 'text': 'RUN 8000', 'variant': 'line'}, scalars=['X!'], trap=True),
+            # seed C23c: base set implicitly by DIM, then CLEAR; seed C23d: CLEAR / NEW inside an error handler
+            prog([[10, 'DIM A%(3):A%(1)=2'], [20, 'CLEAR'], [30, 'STOP']], [], clear, arrays=[['A%', [3]]], base=0,
+                 base_first=True),
+            prog([[10, 'DIM A%(3):A%(1)=2'], [20, 'STOP']], ['NEW'], {'cmd': 'NEW', 'text': 'NEW'}, arrays=[['A%', [3]]],
+                 base=0, base_first=True),
+            prog([[10, 'ON ERROR GOTO 9000:X!=1'], [20, 'ERROR 77'], [30, 'STOP'], [9000, 'CLEAR'], [9010, 'STOP']], [],
+                 clear, scalars=['X!'], trap=True),
+            prog([[10, 'ON ERROR GOTO 9000:X!=1'], [20, 'ERROR 77'], [30, 'STOP'], [9000, 'NEW'], [9010, 'STOP']], [],
+                 {'cmd': 'NEW', 'text': 'NEW'}, scalars=['X!'], trap=True),
             # D23a: a failed CHAIN must not leave garbage collection switched off
             prog([[10, 'A$="x"+"y":B=5'], [20, 'CHAIN "NOFILE"'], [30, 'STOP']], [],
                  dict(chain, text='CHAIN "NOFILE"', variant='nofile', decls=[]), scalars=['A$', 'B!']),
@@ -1040,7 +1072,7 @@ class C23(core.Check):
             if k == 'vars':
                 after.update(dict(TAG.findall(v)))
         refs = [n for n in case['scalars']] + ['Z9!']
-        for n, dd in case['arrays']:
+        for n, dd in ([] if case.get('base_first') else case['arrays']):
             idx = [[]]
             for x in dd:
                 idx = [i + [j] for i in idx for j in range(case['base'] or 0, x + 1)]
@@ -1112,6 +1144,14 @@ class C23(core.Check):
         if not (cmd == 'CHAIN' and op['all']):
             if 'Undefined user function' not in probes['fn']:
                 return 'DEF FN survived %s: %r' % (op['text'], probes['fn'])
+        if not base_kept and 'Duplicate Definition' not in probes['base2']:
+            return ('OPTION BASE 1 was unset by ERASE after %s (a stale "set by DIM" mark survived): %r'
+                    % (op['text'], probes['base2']))
+        if '<M>after|' not in probes['math'] or 'Division by zero' not in probes['math']:
+            return ('math errors still stop execution after %s (error handler left in raising mode): %r'
+                    % (op['text'], probes['math']))
+        if 'RESUME without error' not in probes['resume']:
+            return 'RESUME state survived %s: RESUME gave %r' % (op['text'], probes['resume'][:80])
         if 'Unprintable error' not in probes['trap'] or 'TRAP' in probes['trap']:
             return 'ON ERROR trap survived %s: %r' % (op['text'], probes['trap'])
         if 'RETURN without GOSUB' not in probes['return']:
